@@ -168,6 +168,15 @@ VSect(L, b, i) == LET r == LodRec(b, L, i) IN <<r.voff, r.voff + r.vsize>>
 ISect(L, b, i) == LET r == LodRec(b, L, i) IN <<r.ioff, r.ioff + r.isize>>
 Disjoint(x, y) == x[2] <= y[1] \/ y[2] <= x[1] \/ x[1] = x[2] \/ y[1] = y[2]
 DataStart(L) == 68 + L.fh.stack + L.fh.runtime
+\* where the tables of the model really end: behind the shape values come the bone map (size field of 4 bytes in
+\* version 5, 2 in version 6, then the map), the padding block (count byte + bytes), four model bounding boxes and one
+\* per bone (32 bytes each)
+TablesEnd(b, L) ==
+  LET oMapSize == L.oShapeVal + 4 * L.nShapeVal
+      v6 == L.fh.version >= 16777222
+      mapBytes == IF v6 THEN U16(b, oMapSize) ELSE U32n(b, oMapSize)
+      oPad == oMapSize + (IF v6 THEN 2 ELSE 4) + mapBytes
+  IN oPad + 1 + U8(b, oPad) + 128 + 32 * L.nBone
 LodVertexBytes(b, L, i) ==
   LET r == LodRec(b, L, i)
   IN FoldLeft(LAMBDA a, j : LET m == MeshRec(b, L, j)
@@ -186,6 +195,8 @@ HeaderFactsLen(b, flen) ==
                                 /\ LodRec(b, L, i).isize >= 2 * LodIndexCount(b, L, i)
                                 /\ LodRec(b, L, i).isize < 2 * LodIndexCount(b, L, i) + 32,
       padded |-> \A i \in 1..n : LodRec(b, L, i).isize % 16 = 0,
+      \* the runtime size of the file header covers the tables exactly: geometry starts where they end
+      runtimeCovers |-> TablesEnd(b, L) = DataStart(L),
       fileHeaderAgrees |-> \A i \in 1..n : /\ L.fh.voff[i] = LodRec(b, L, i).voff /\ L.fh.ioff[i] = LodRec(b, L, i).ioff
                                            /\ L.fh.vsize[i] = LodRec(b, L, i).vsize /\ L.fh.isize[i] = LodRec(b, L, i).isize,
       \* every mesh's vertex streams lie inside its LOD's vertex section, its indices inside the index section
